@@ -25,7 +25,7 @@ pub fn scenario_for(property: &str) -> Option<ScenarioFn> {
         "C12" => Some(c12::run),
         "C13" => Some(c13::run),
         "C14" => Some(c14::run),
-        "C15e" => Some(c15e::run),
+        "C15e" | "C12t" => Some(c15e::run),
         "C18e" => Some(c18e::run),
         "C19e" => Some(c19e::run),
         "C20" => Some(c20::run),
@@ -41,10 +41,10 @@ pub fn budget(property: &str, tier: &str) -> (u64, u64, u64) {
         "C08" => (600_000, 60, 900),
         "C02" if quick => (20_000, 30, 60),
         "C10" if quick => (16_000, 30, 60),
-        "C15e" if quick => (20_000, 30, 40),
+        "C15e" | "C12t" if quick => (20_000, 30, 40),
         "C18e" if quick => (30_000, 30, 30),
         "C19e" if quick => (20_000, 30, 40),
-        "C15e" | "C18e" | "C19e" => (400_000, 60, 600),
+        "C15e" | "C12t" | "C18e" | "C19e" => (400_000, 60, 600),
         "C06" if quick => (30_000, 30, 60),
         "C07" if quick => (20_000, 30, 60),
         "C12" if quick => (8_000, 30, 60),
